@@ -139,7 +139,6 @@ func (svr *TrustMatrixServer) Update(
 				Str("matrixTimestamp", timestamp.String()).
 				Msg("accepted stale update")
 		}
-		timestamp.Set(updateTimestamp)
 		return nil
 	})
 	if err != nil {
